@@ -3,5 +3,5 @@
 EXTENDS DbState
 Bound == TLCGet("level") <= MaxLevel
 \* the last action is a label, not state
-View  == <<live, files, snap, loaded, src>>
+View  == <<live, files, snap, loaded, src, flags>>
 =====================================================================================================
